@@ -113,22 +113,31 @@ func c20Close(g *rand.Rand, log *[]string) (string, error) {
 		dialWg.Add(1)
 		go func() {
 			defer dialWg.Done()
-			for j := 0; j < 400; j++ {
+			// keeps connecting until Close() has returned; only the most recent connections matter
+			// (those accepted around the moment of termination), older ones are given back
+			var mine []*Conn
+			for j := 0; j < 200000; j++ {
 				select {
 				case <-stopDial:
-					return
+					j = 200000
+					continue
 				default:
 				}
 				c, err := net.DialTimeout("tcp", fmt.Sprintf("127.0.0.1:%d", port), time.Second)
 				if err != nil {
-					return
+					break
 				}
 				cn := &Conn{c: c}
 				cn.r = bufio.NewReaderSize(c, 1<<12)
-				lateMu.Lock()
-				late = append(late, cn)
-				lateMu.Unlock()
+				mine = append(mine, cn)
+				if len(mine) > 120 {
+					mine[0].Close()
+					mine = mine[1:]
+				}
 			}
+			lateMu.Lock()
+			late = append(late, mine...)
+			lateMu.Unlock()
 		}()
 	}
 	note("%d goroutines keep connecting while Close() runs", nDialers)
@@ -271,6 +280,68 @@ func reachesEOF(c *Conn, d time.Duration) bool {
 	}
 }
 
+// goroutines that keep connecting until stopped; returns the most recent connections of each
+// (those established around the moment of termination)
+func startDialers(port, n int) func() []*Conn {
+	var mu sync.Mutex
+	var late []*Conn
+	stop := make(chan struct{})
+	var wg sync.WaitGroup
+	for d := 0; d < n; d++ {
+		wg.Add(1)
+		go func() {
+			defer wg.Done()
+			var mine []*Conn
+			for j := 0; j < 200000; j++ {
+				select {
+				case <-stop:
+					j = 200000
+					continue
+				default:
+				}
+				c, err := net.DialTimeout("tcp", fmt.Sprintf("127.0.0.1:%d", port), time.Second)
+				if err != nil {
+					break
+				}
+				cn := &Conn{c: c}
+				cn.r = bufio.NewReaderSize(c, 1<<12)
+				mine = append(mine, cn)
+				if len(mine) > 120 {
+					mine[0].Close()
+					mine = mine[1:]
+				}
+			}
+			mu.Lock()
+			late = append(late, mine...)
+			mu.Unlock()
+		}()
+	}
+	return func() []*Conn {
+		close(stop)
+		wg.Wait()
+		return late
+	}
+}
+
+// a connection made while Close() ran must be refused or closed: "" = fine
+func lateVerdict(late []*Conn) string {
+	for i, c := range late {
+		// a connection whose handshake the kernel completed on a listener that was closed before
+		// accepting it exists only on the client's side: it ends as soon as the client sends
+		c.c.SetWriteDeadline(time.Now().Add(time.Second))
+		c.c.Write(encodeCmd(bs("PING")))
+		c.c.SetReadDeadline(time.Now().Add(1500 * time.Millisecond))
+		if n, _ := c.r.Peek(1); len(n) == 1 && n[0] == '+' {
+			return fmt.Sprintf("connection %d of %d established while Close() was running was served after Close() had returned", i, len(late))
+		}
+		if !reachesEOF(c, 1500*time.Millisecond) {
+			return fmt.Sprintf("connection %d of %d established while Close() was running is still open after Close() had returned", i, len(late))
+		}
+		c.Close()
+	}
+	return ""
+}
+
 // many start/stop cycles on one port in one process, Close() landing while every client is between
 // two commands at a different point: the narrow windows of the connection state machine
 func c20Swarm(g *rand.Rand, log *[]string) (string, error) {
@@ -311,10 +382,18 @@ func c20Swarm(g *rand.Rand, log *[]string) (string, error) {
 				}
 			}(i, c)
 		}
+		var stopDialers func() []*Conn
+		if cy%2 == 1 {
+			stopDialers = startDialers(port, 2+g.Intn(5))
+		}
 		time.Sleep(time.Duration(500+g.Intn(3000)) * time.Microsecond)
 		t0 := time.Now()
 		r, err := srv.Ctl("CLOSE 1", 15*time.Second)
 		el := time.Since(t0)
+		var late []*Conn
+		if stopDialers != nil {
+			late = stopDialers()
+		}
 		if err != nil || !strings.HasPrefix(r, "CLOSED") || el > 2*time.Second {
 			*log = append(*log, fmt.Sprintf("cycle %d: %d clients sending PING in a loop; Close() -> %q after %v", cy, n, r, el))
 			for _, c := range conns {
@@ -322,6 +401,9 @@ func c20Swarm(g *rand.Rand, log *[]string) (string, error) {
 			}
 			wg.Wait()
 			return fmt.Sprintf("cycle %d: Close() did not return promptly (%q after %v) while %d clients were sending PING in a loop", cy, r, el, n), nil
+		}
+		if why := lateVerdict(late); why != "" {
+			return fmt.Sprintf("cycle %d: %s", cy, why), nil
 		}
 		wg.Wait() // every loop ends: its connection was closed (a Do that times out after 3 s also ends it)
 		for i, c := range conns {
